@@ -42,6 +42,9 @@ OPTSETS = {
     "finite-mixed": (("finite-mixed",), "", False, False),
     "k-finite": (("finite",), "k", False, False),
     "smallest": ((), "", False, True),
+    "opaque": (("opaque",), "", False, False),
+    "opaque-k": (("opaque",), "k", False, False),
+    "opaque-ku": (("opaque",), "ku", False, False),
     "oneway": (("oneway",), "", False, False),
     "oneway-k": (("oneway",), "k", False, False),
     "two": (("two",), "", False, False),
@@ -258,6 +261,16 @@ def std_groups(tier, dbs=("base", "forget", "forest"), opts=None, sched=True, rn
         gs.append(g)
 
     n2 = len(tables(2))
+    if "forest" in dbs and not any(o.startswith("opaque") for o in opts):
+        # the start class can only be specified backwards (complement + quotient rules, also with statistics)
+        for opt in ("opaque", "opaque-k", "opaque-ku"):
+            add("opt-forest-%s-S2" % opt, "check_opt", {"db": "forest", "opt": opt, "S": 2}, expect=n2, weight=n2)
+        if tier == "thorough":
+            n3 = len(tables(3))
+            for opt in ("opaque", "opaque-k"):
+                for lo in range(0, n3, 300):
+                    hi = min(n3, lo + 300)
+                    add("opt-forest-%s-S3-t%d" % (opt, lo), "check_opt", {"db": "forest", "opt": opt, "S": 3, "trange": [lo, hi]}, expect=hi - lo, weight=hi - lo)
     for db in dbs:
         for opt in opts:
             if opt in ("iterative",) and db.startswith("forest"):
